@@ -273,6 +273,9 @@ Section Eval.
   Definition py_true : ustring := [84; 114; 117; 101].
   Definition py_false : ustring := [70; 97; 108; 115; 101].
 
+  (** ExpressionUtility.is_none on the modelled values: None, or text that is blank *)
+  Definition none_like (v : value) : bool := match v with VNone => true | VS t => is_blank_text t | _ => false end.
+
   Definition do_agg (s : cst) (l : line ustring) (g : agg) : cst * bool :=
     let m := x mx s in
     match g with
@@ -291,8 +294,10 @@ Section Eval.
         (with_mx s (dset m nm key (VI cnt)), cnt mod n =? 0)
     | Counter nm k =>
         (with_mx s (mkMx (update nm (VI (num_of (lookup nm (vars m)) + k)) (vars m)) (stacks m) (dicts m)), AND)
-    | Sum nm e =>
-        (with_mx s (mkMx (update nm (VF (num_of (lookup nm (vars m)) + fst (neval s l e))) (vars m)) (stacks m) (dicts m)), AND)
+    | Sum nm e =>          (* a value that is none (a missing or blank cell) adds the int 0: the total keeps its value and its type; anything else is added as a float *)
+        if none_like (nvalue s l e)
+        then (with_mx s (mkMx (update nm (match lookup nm (vars m) with Some old => old | None => VI 0 end) (vars m)) (stacks m) (dicts m)), AND)
+        else (with_mx s (mkMx (update nm (VF (num_of (lookup nm (vars m)) + fst (neval s l e))) (vars m)) (stacks m) (dicts m)), AND)
     | Subtotal nm i e =>
         let key := hdr_key l i in
         (with_mx s (dset m nm key (VF (num_of (dget m nm key) + fst (neval s l e)))), AND)
